@@ -167,14 +167,12 @@ Definition obj_issubclass (h : heap) (c : pyval) (ks : list pystr) : res bool :=
   | _ => Raise TypeError
   end.
 
-(* x is K / x is not K for a class K of the package: class objects are identified by their names; an instance, an
-   enum member, plain data, a builtin class, an exception object are not a class object of the package *)
+(* x is K / x is not K for a class K of the package: class objects are [ref name], identified by their names; an
+   instance, an enum member, plain data, a builtin class, an exception object, an opaque object (tagged by the
+   name of ITS class) are not a class object of the package *)
 Definition py_is_classobj (a : pyval) (n : pystr) : res bool :=
   match a with
-  | POther t m =>
-      if pystr_eqb t ref_tag then Ok (pystr_eqb m n)
-      else if pystr_eqb t builtin_tag || pystr_eqb t exn_tag then Ok false
-      else Raise Unmodelled
+  | POther t m => if pystr_eqb t ref_tag then Ok (pystr_eqb m n) else Ok false
   | _ => Ok false
   end.
 
